@@ -56,6 +56,10 @@ def _is_self(node):
     return isinstance(node, ast.Name) and node.id == 'self'
 
 
+LOCK_ATTRS = {'_lock'}      # attributes of self assigned from RLock()/Lock() in the class source; set by transform()
+TX_COUNT = [0]              # with-statements on a lock attribute that were rewritten
+
+
 class Tx(ast.NodeTransformer):
     def __init__(self, methods):
         self.methods = methods
@@ -133,7 +137,8 @@ class Tx(ast.NodeTransformer):
 
     def visit_With(self, node):
         item = node.items[0].context_expr
-        if isinstance(item, ast.Attribute) and _is_self(item.value) and item.attr == '_lock':
+        if isinstance(item, ast.Attribute) and _is_self(item.value) and item.attr in LOCK_ATTRS:
+            TX_COUNT[0] += 1
             # like the with statement, evaluate the lock expression once: enter and exit act on the same object
             # even if the body rebinds self._lock
             #   cell = [None]
@@ -208,6 +213,20 @@ def transform(module, drop_lock_in=()):
         for f in c.body:
             if isinstance(f, ast.FunctionDef) and f.name not in SKIP:
                 methods.add(f.name)
+    # which attributes hold the lock?  (self.<attr> = RLock() / Lock() anywhere in the two classes)
+    found = set()
+    for c in classes:
+        for n in ast.walk(c):
+            if isinstance(n, ast.Assign) and isinstance(n.value, ast.Call) and ast.unparse(n.value.func).split('.')[-1] in ('RLock', 'Lock'):
+                for t in n.targets:
+                    if isinstance(t, ast.Attribute) and _is_self(t.value):
+                        found.add(t.attr)
+    if not found:
+        from vf.rt import HarnessGap
+        raise HarnessGap('no self.<attr> = RLock() found in LRI/LRU: the coroutine transformer must be adapted')
+    LOCK_ATTRS.clear()
+    LOCK_ATTRS.update(found)
+    TX_COUNT[0] = 0
     for c in classes:
         body = []
         for f in c.body:
@@ -215,7 +234,7 @@ def transform(module, drop_lock_in=()):
                 if f.name in drop_lock_in and c.name == 'LRI':
                     newbody = []
                     for st in f.body:
-                        if isinstance(st, ast.With) and isinstance(st.items[0].context_expr, ast.Attribute) and st.items[0].context_expr.attr == '_lock':
+                        if isinstance(st, ast.With) and isinstance(st.items[0].context_expr, ast.Attribute) and st.items[0].context_expr.attr in LOCK_ATTRS:
                             newbody.extend(st.body)
                         else:
                             newbody.append(st)
@@ -223,10 +242,14 @@ def transform(module, drop_lock_in=()):
                 f = Tx(methods).visit(f)
             body.append(f)
         c.body = body
+    if TX_COUNT[0] == 0 and not drop_lock_in:
+        from vf.rt import HarnessGap
+        raise HarnessGap('no `with self.<lock>:` statement found in LRI/LRU: locking is done some other way, the transformer must be adapted')
     newmod = ast.Module(body=classes, type_ignores=[])
     ast.fix_missing_locations(newmod)
     ns = dict(vars(module))
     ns['RLock'] = ModelLock
+    ns['Lock'] = ModelLock
     exec(compile(newmod, '<coro:%s>' % module.__name__, 'exec'), ns)
     return ns['LRI'], ns['LRU'], ast.unparse(newmod)
 
